@@ -23,8 +23,14 @@ func ruleFilePlugin(c *Ctx, prefix string) {
 		c.R.Functions[shortFn(f)] = true
 	}
 	// ---- PER-PROTOCOL: which loaders feed the table each handler reads
-	{
+	var swapValues []string // canonical values stored into the table, collected by the SWAP exploration
+	perProtocol := func() {
 		feeders := map[string]bool{}
+		for _, v := range swapValues {
+			for _, m := range regexp.MustCompile(reQ(pkgF)+`\.(LoadDHCPv[46]Records)`).FindAllStringSubmatch(v, -1) {
+				feeders[m[1]] = true
+			}
+		}
 		var storeFns []string
 		for _, s := range findStores(c.P, nil, g) {
 			storeFns = append(storeFns, shortFn(s.Parent()))
@@ -58,13 +64,11 @@ func ruleFilePlugin(c *Ctx, prefix string) {
 		}
 		readers := map[string]bool{}
 		for _, h := range []*ssa.Function{h4, h6} {
-			for _, b := range h.Blocks {
-				for _, in := range b.Instrs {
-					if touchesGlobal(in, g) {
-						readers[h.Name()] = true
-					}
+			eachInstr(h, func(in ssa.Instruction) {
+				if touchesGlobal(in, g) {
+					readers[h.Name()] = true
 				}
-			}
+			})
 		}
 		key := "file.StaticRecords shared by both protocols"
 		if feeders["LoadDHCPv4Records"] && feeders["LoadDHCPv6Records"] && readers["Handler4"] && readers["Handler6"] {
@@ -73,9 +77,11 @@ func ruleFilePlugin(c *Ctx, prefix string) {
 			c.R.ok(prefix+"FILE.PER-PROTOCOL", key, c.P.Pos(g.Pos()), pkgShort(pkgF), "each handler's table is fed only by its own protocol's loader")
 		}
 	}
+	defer perProtocol()
 	// ---- SWAP
 	{
 		n := 0
+		storeFnsSeen := map[*ssa.Function]bool{}
 		for _, fn := range c.P.SrcFuncs() {
 			if fnPkgPath(fn) != pkgF || isFixture(fn) {
 				continue
@@ -96,6 +102,17 @@ func ruleFilePlugin(c *Ctx, prefix string) {
 			if !has {
 				continue
 			}
+			storeFnsSeen[fn] = true
+		}
+		var swapRoots []*ssa.Function
+		for _, fn := range c.P.SrcFuncs() {
+			if storeFnsSeen[fn] {
+				for _, r := range explorationRoots(c, fn) {
+					swapRoots = appendUniqueFn(swapRoots, r)
+				}
+			}
+		}
+		for _, fn := range swapRoots {
 			ex := NewExplorer(c.P, c.Pure, fn)
 			var bad []string
 			ex.Hooks.Instr = func(st *State, in ssa.Instruction) {
@@ -105,6 +122,7 @@ func ruleFilePlugin(c *Ctx, prefix string) {
 				}
 				n++
 				v := ex.Canon(st, s.Val).S
+				swapValues = append(swapValues, v)
 				m := regexp.MustCompile(`^(` + reQ(pkgF) + `\.LoadDHCPv[46]Records@(?:[\w$]+·)?t\d+\(.*\))#0$`).FindStringSubmatch(v)
 				if m == nil {
 					bad = append(bad, "the served table is replaced by something other than a loader's result: "+shortName(stripAt(v)))
@@ -146,7 +164,6 @@ func ruleFilePlugin(c *Ctx, prefix string) {
 func pkgShort(p string) string { return shortName(p) }
 
 func ruleFileLoader(c *Ctx, prefix string, fn *ssa.Function, v6 bool) {
-	info := InfoOf(fn)
 	ex := NewExplorer(c.P, c.Pure, fn)
 	var gram, aon []string
 	addg := func(s string) {
@@ -160,24 +177,23 @@ func ruleFileLoader(c *Ctx, prefix string, fn *ssa.Function, v6 bool) {
 		}
 	}
 	var ins *ssa.MapUpdate
-	for _, b := range fn.Blocks {
-		for _, in := range b.Instrs {
-			if mu, ok := in.(*ssa.MapUpdate); ok {
-				if ins != nil {
-					addg("more than one record store in the loader")
-				}
-				ins = mu
+	eachInstr(fn, func(in ssa.Instruction) {
+		if mu, ok := in.(*ssa.MapUpdate); ok {
+			if ins != nil {
+				addg("more than one record store in the loader")
 			}
+			ins = mu
 		}
-	}
+	})
 	if ins == nil {
 		c.R.bad(prefix+"FILE.LINE-GRAMMAR", shortFn(fn), c.P.Pos(fn.Pos()), shortFn(fn), "loader never stores a record")
 		return
 	}
-	hdr := -1
-	for h, body := range info.LoopOf {
+	// the line loop: the loop (of whichever function holds the store) that contains the store
+	var hdrBlk *ssa.BasicBlock
+	for h, body := range InfoOf(ins.Parent()).LoopOf {
 		if body[ins.Block().Index] {
-			hdr = h
+			hdrBlk = ins.Parent().Blocks[h]
 		}
 	}
 	line := `conv<string>\(bytes\.Split(@(?:[\w$]+·)?t\d+)?\(os\.ReadFile(@(?:[\w$]+·)?t\d+)?\(\$0\)#0,[^)]*\)\[` + idxRe + `\]\)`
@@ -224,7 +240,7 @@ func ruleFileLoader(c *Ctx, prefix string, fn *ssa.Function, v6 bool) {
 		}
 	}
 	ex.Hooks.BackEdge = func(st *State, from, header *ssa.BasicBlock) {
-		if header.Index != hdr {
+		if header != hdrBlk {
 			return
 		}
 		iters++
@@ -255,8 +271,16 @@ func ruleFileLoader(c *Ctx, prefix string, fn *ssa.Function, v6 bool) {
 			if _, ok := ex.ResolveDeep(st, ret.Results[0]).(*ssa.MakeMap); !ok {
 				aon = append(aon, "success return does not return the freshly built map")
 			}
-			if info.LoopOf[hdr][in.Block().Index] {
-				aon = append(aon, "success is returned from inside the line loop: later lines are not read")
+			// the loop must have run to exhaustion: the exit edge's `index < len(lines)` is decided false
+			exhausted := false
+			for _, k := range sortedKeys(st.hist) {
+				f := st.hist[k]
+				if f.Kind == "lt" && !f.Val && regexp.MustCompile(`^`+idxRe+`$`).MatchString(f.X) && strings.HasPrefix(f.Y, "len(bytes.Split") {
+					exhausted = true
+				}
+			}
+			if hdrBlk != nil && !exhausted {
+				aon = append(aon, "success is returned without the line loop having run to its end: later lines are not read")
 			}
 		} else {
 			nE++
@@ -414,15 +438,18 @@ func ruleFileWatch(c *Ctx, prefix string) {
 		return
 	}
 	var w *ssa.Function
-	for _, b := range sf.Blocks {
-		for _, in := range b.Instrs {
-			if g, ok := in.(*ssa.Go); ok {
-				if mc, ok := g.Call.Value.(*ssa.MakeClosure); ok {
-					w, _ = mc.Fn.(*ssa.Function)
+	eachInstr(sf, func(in ssa.Instruction) {
+		if g, ok := in.(*ssa.Go); ok {
+			switch v := g.Call.Value.(type) {
+			case *ssa.MakeClosure:
+				w, _ = v.Fn.(*ssa.Function)
+			case *ssa.Function: // a named watcher function started with `go`
+				if FirstParty(v) {
+					w = v
 				}
 			}
 		}
-	}
+	})
 	key := "file watcher goroutine"
 	if w == nil {
 		c.R.bad(prefix+"FILE.WATCH", key, c.P.Pos(sf.Pos()), shortFn(sf), "setupFile starts no watcher goroutine: autorefresh never reloads")
@@ -451,8 +478,18 @@ func ruleFileWatch(c *Ctx, prefix string) {
 				case *ssa.Return, *ssa.Panic:
 					bad = append(bad, fmt.Sprintf("the watcher leaves its loop at %s: after one failed (or any) reload later updates are never picked up", c.P.InstrPos(in)))
 				case *ssa.Call:
-					if f := x.Call.StaticCallee(); f != nil && f.Name() == "loadFromFile" {
-						reload = true
+					if f := x.Call.StaticCallee(); f != nil {
+						if f.Name() == "loadFromFile" {
+							reload = true
+						}
+						for _, g := range inlineFuncs(f) {
+							if g.Name() == "loadFromFile" {
+								reload = true // through a helper extracted from the loop body
+							}
+						}
+						if strings.Contains(fnCalls(f), "/plugins/file.loadFromFile") && defaultInline(w, f) {
+							reload = true
+						}
 					}
 					if _, ok := panicSite(in); ok {
 						bad = append(bad, fmt.Sprintf("the watcher terminates the process at %s", c.P.InstrPos(in)))
